@@ -830,6 +830,12 @@ def gen_program(r, size=4):
                      [("A", ["int", "int"]), ("B", []), ("C", [("list", "int"), ("tuple", ["int", "int"])])]))
     if r.random() < 0.3:
         prog.append(("gblob", "Q", ["T", "U"], [("v", "*T"), ("w", ("tuple", ["*U", "int"]))]))
+    if r.random() < 0.04:
+        # a duplicate field / variant name, possibly separated by other members: always rejected
+        if r.random() < 0.5:
+            prog.append(("blob", "D", r.choice([[("a", "int"), ("a", "int")], [("a", "int"), ("b", "int"), ("a", "int")]])))
+        else:
+            prog.append(("enum", "F", [], r.choice([[("A", ["int"]), ("A", [])], [("A", ["int"]), ("B", []), ("A", [])]])))
     if r.random() < 0.5:
         prog.append(("const", "k0", ("int", r.randint(1, 9))))
     for i in range(r.randint(1, size)):
